@@ -34,14 +34,14 @@ CONSTS = {
     # exhaustive run; thinned run = a seed-chosen random subtree of longer programs over four symbols;
     # chain run = exhaustive def-use chain family (one atom per right hand side, only defined symbols are read)
     "quick": (
-        dict(NSyms=3, MaxLen=3, MaxUses=2, MaxGuards=1, WithODE="TRUE", MaxFeat=3, MaxAdm=5, MinEmit=1, MaxRmSet=2, SampleMod=16, Thin=1, FullDepth=0, ChainMode="FALSE"),
-        dict(NSyms=4, MaxLen=6, MaxUses=2, MaxGuards=2, WithODE="TRUE", MaxFeat=9, MaxAdm=4, MinEmit=5, MaxRmSet=1, SampleMod=6, Thin=64, FullDepth=1, ChainMode="FALSE"),
-        dict(NSyms=4, MaxLen=5, MaxUses=1, MaxGuards=0, WithODE="FALSE", MaxFeat=9, MaxAdm=5, MinEmit=4, MaxRmSet=1, SampleMod=1, Thin=1, FullDepth=0, ChainMode="TRUE"),
+        dict(NSyms=3, MaxLen=3, MaxUses=2, MaxGuards=1, WithODE="TRUE", MaxFeat=3, MaxAdm=5, MinEmit=1, MinCands=0, MaxRmSet=1, SampleMod=64, Thin=1, FullDepth=0, ChainMode="FALSE"),
+        dict(NSyms=4, MaxLen=6, MaxUses=2, MaxGuards=2, WithODE="TRUE", MaxFeat=9, MaxAdm=4, MinEmit=5, MinCands=0, MaxRmSet=2, SampleMod=2, Thin=112, FullDepth=1, ChainMode="FALSE"),
+        dict(NSyms=4, MaxLen=5, MaxUses=1, MaxGuards=0, WithODE="FALSE", MaxFeat=9, MaxAdm=5, MinEmit=4, MinCands=3, MaxRmSet=1, SampleMod=1, Thin=1, FullDepth=0, ChainMode="TRUE"),
     ),
     "thorough": (
-        dict(NSyms=3, MaxLen=3, MaxUses=2, MaxGuards=1, WithODE="TRUE", MaxFeat=5, MaxAdm=5, MinEmit=1, MaxRmSet=2, SampleMod=8, Thin=1, FullDepth=0, ChainMode="FALSE"),
-        dict(NSyms=4, MaxLen=8, MaxUses=2, MaxGuards=3, WithODE="TRUE", MaxFeat=12, MaxAdm=5, MinEmit=6, MaxRmSet=1, SampleMod=12, Thin=64, FullDepth=1, ChainMode="FALSE"),
-        dict(NSyms=4, MaxLen=6, MaxUses=1, MaxGuards=0, WithODE="FALSE", MaxFeat=9, MaxAdm=6, MinEmit=4, MaxRmSet=2, SampleMod=16, Thin=1, FullDepth=0, ChainMode="TRUE"),
+        dict(NSyms=3, MaxLen=3, MaxUses=2, MaxGuards=1, WithODE="TRUE", MaxFeat=5, MaxAdm=5, MinEmit=1, MinCands=0, MaxRmSet=2, SampleMod=8, Thin=1, FullDepth=0, ChainMode="FALSE"),
+        dict(NSyms=4, MaxLen=8, MaxUses=2, MaxGuards=3, WithODE="TRUE", MaxFeat=12, MaxAdm=5, MinEmit=6, MinCands=0, MaxRmSet=1, SampleMod=12, Thin=64, FullDepth=1, ChainMode="FALSE"),
+        dict(NSyms=4, MaxLen=6, MaxUses=1, MaxGuards=0, WithODE="FALSE", MaxFeat=9, MaxAdm=6, MinEmit=4, MinCands=0, MaxRmSet=2, SampleMod=16, Thin=1, FullDepth=0, ChainMode="TRUE"),
     ),
 }
 INVARIANTS = ["T0_Machine", "T1_FullExpr", "T2_DepSound", "T3_DepBounds", "T4_Remove", "T5_Reassign", "T6_Subs", "T7_Used", "EmitCase"]
@@ -66,15 +66,16 @@ def _tlc_cases(tier: str, seed: int, v: core.Verdict):
         except Exception as e:  # noqa: BLE001
             out[tag] = e
 
-    # (a) vacuity guard: small exhaustive run with -coverage (every named action must be taken)
-    cov_c = dict(ex_c, MaxLen=2, MinEmit=99)
+    # vacuity guard (-coverage: every named action must be taken): the small subtree run in quick, an extra tiny run otherwise
     to = 3000 if tier == "quick" else 7200
     jobs = [
-        ("cov", lambda: core.run_tlc(SPEC / "Statements.tla", _cfg(d / "cov.cfg", cov_c, 0), workers=2, timeout=to, coverage=True, heap="2g")),
         # (b) the exhaustive design-level run (no coverage instrumentation: twice as fast)
         ("ex", lambda: core.run_tlc(SPEC / "Statements.tla", _cfg(d / "ex.cfg", ex_c, seed), workers=8, timeout=to, coverage=False, heap="4g")),
         # (c) longer programs over four symbols: exhaustive search of a random (VERIF_SEED) subtree
-        ("sim", lambda: core.run_tlc(SPEC / "Statements.tla", _cfg(d / "sim.cfg", sim_c, seed), workers=6, timeout=to, coverage=False, heap="4g")),
+        # (quick: with -coverage, this run is the vacuity guard -- every named action must be taken)
+        ("sim", lambda: core.run_tlc(SPEC / "Statements.tla", _cfg(d / "sim.cfg", sim_c, seed), workers=6, timeout=to, coverage=tier == "quick", heap="4g")),
+        ("cov", lambda: core.run_tlc(SPEC / "Statements.tla", _cfg(d / "cov.cfg", dict(ex_c, NSyms=2, MaxLen=2, MinEmit=99), 0), workers=2, timeout=to,
+                                     coverage=True, heap="2g") if tier != "quick" else None),
         # (d) the def-use chain family (long dependency chains, readers before / between / after the edited statement)
         ("chain", lambda: core.run_tlc(SPEC / "Statements.tla", _cfg(d / "chain.cfg", ch_c, seed), workers=4, timeout=to, coverage=False, heap="4g")),
     ]
@@ -84,6 +85,8 @@ def _tlc_cases(tier: str, seed: int, v: core.Verdict):
         time.sleep(0.4)  # core.scratch names the TLC metadir by pid + millisecond: never start two runs in the same one
     [t.join() for t in ths]
     shutil.rmtree(d, ignore_errors=True)
+    if out.get("cov") is None:
+        out["cov"] = out["sim"]
     for tag, _ in jobs:
         if isinstance(out[tag], Exception):
             raise core.MachineryError(f"TLC run {tag}: {out[tag]}")
@@ -100,7 +103,7 @@ def _tlc_cases(tier: str, seed: int, v: core.Verdict):
         tlc_chain_programs=out["chain"].distinct,
         tlc_exhaustive_programs=out["ex"].distinct,
         tlc_subtree_programs=out["sim"].distinct,
-        tlc_wall_s={k: round(out[k].wall, 1) for k in out},
+        tlc_wall_s={k: round(out[k].wall, 1) for k in out if not (k == "cov" and out[k] is out["sim"])},
         design_theorems_checked=INVARIANTS[:-1],
     )
     ex = [c for tag, c in out["ex"].prints if tag == "CASE"]
